@@ -1,17 +1,333 @@
-//! module `styled` — streams `styled.*` (not built yet).
+//! module `styled` — styled primitives and polylines, the cross-cutting streams of C01, C02, C06, C07.
+//!
+//!   styled.paths <shape> <style> <tbox x y w h>  -> C01: draw() on R1 (draw_iter only), draw() on R2 (native fill_*),
+//!                                                    pixels() fed to draw_iter; all three maps and both call logs
+//!   styled.bbox <shape> <style>                  -> C02: bounding_box() vs the set of drawn pixels
+//!   styled.areas <closed shape> <style>          -> C06: drawn map vs fill_area()/stroke_area() contains
+//!   styled.translate <shape> <style> dx dy       -> C07: draw / bounding_box / points / contains commute with translate
+//!
+//! Shapes and styles: see shapes.rs. Oracles are the property texts; classes are prefixed `Cxx:`.
 use crate::common::*;
+use crate::shapes::*;
+use crate::with_shape;
+use embedded_graphics::{
+    pixelcolor::Rgb565,
+    prelude::*,
+    primitives::{ContainsPoint, Rectangle, Styled},
+};
 
 pub struct M;
+
+fn tbox_list() -> Vec<&'static str> {
+    // unbounded-ish, a box not at the origin cutting through the shapes, an empty box
+    vec!["-4096 -4096 8192 8192", "-1 0 6 5", "3 3 0 4"]
+}
+
+fn shift_map(m: &PMap, d: Point) -> PMap {
+    m.iter().map(|((y, x), c)| ((y + d.y, x + d.x), *c)).collect()
+}
+
+fn small_map(m: &PMap) -> String {
+    if m.len() <= 600 {
+        fmt_map(m)
+    } else {
+        format!("big:{}", m.len())
+    }
+}
 
 impl Module for M {
     fn name(&self) -> &'static str {
         "styled"
     }
     fn rule(&self) -> &'static str {
-        "not built yet"
+        "styled primitives: exhaustive grid of shapes (all rect/ellipse sizes 0..=N squared, circle diameters 0..=2N, rounded rectangles with equal and unequal radii, \
+         all lines / selected triangles / polylines with 0..=4 vertices on a lattice crossing the axes, arcs and sectors on an angle grid) x styles \
+         (4 colour options x stroke widths x 3 alignments) x (C01: 3 target boxes; C07: 6 offsets), then seeded random display-scale shapes. \
+         Non-trivial: the drawable paints at least one pixel (or, for C02 transparency, the style is transparent and the shape non-empty); distinct = distinct op text."
     }
-    fn generate(&self, _pid: &str, _tier: Tier, _rng: &mut Rng, _emit: &mut dyn FnMut(String)) {}
-    fn execute(&self, op: &str, _ctx: &mut Ctx) -> String {
-        panic!("unknown op {}", op)
+
+    fn generate(&self, pid: &str, tier: Tier, rng: &mut Rng, emit: &mut dyn FnMut(String)) {
+        let quick = tier == Tier::Quick;
+        let angles: Vec<(i32, i32)> = if quick {
+            vec![(0, 90_000), (30_000, 120_000), (-45_000, -200_000), (90_000, 360_000), (10_000, 400_000), (200_000, 0), (0, -360_000), (15_500, 33_300)]
+        } else {
+            let mut v = Vec::new();
+            for s in (0..360).step_by(30) {
+                for w in [-400, -360, -270, -135, -45, -10, 0, 10, 45, 135, 270, 360, 400] {
+                    v.push((s * 1000, w * 1000));
+                }
+            }
+            v
+        };
+        let (max_size, grid) = match (pid, quick) {
+            ("C01", true) | ("C06", true) => (7, 3),
+            ("C01", false) | ("C06", false) => (14, 4),
+            (_, true) => (6, 3),
+            (_, false) => (12, 4),
+        };
+        let widths: Vec<u32> = if quick { vec![0, 1, 2, 3, 5, 9] } else { vec![0, 1, 2, 3, 4, 5, 6, 8, 11, 17] };
+        let shapes = shape_grid(max_size, grid, &angles);
+        let styles = style_grid(&widths);
+        let nrand = if quick { 1500 } else { 60_000 };
+        match pid {
+            "C01" => {
+                for (i, sh) in shapes.iter().enumerate() {
+                    for (j, st) in styles.iter().enumerate() {
+                        // every shape x style on the unbounded box; the clipping boxes on a rotating third
+                        emit(format!("styled.paths {} {} {}", sh, st, tbox_list()[0]));
+                        let k = 1 + (i + j) % 2;
+                        if (i + 2 * j) % 3 == 0 {
+                            emit(format!("styled.paths {} {} {}", sh, st, tbox_list()[k]));
+                        }
+                    }
+                }
+                for _ in 0..nrand {
+                    let sh = random_shape(rng, 300, 90);
+                    let st = random_style(rng, 24);
+                    let tb = if rng.chance(1, 2) { "-4096 -4096 8192 8192".to_string() } else { format!("{} {} {} {}", rng.range(-200, 100), rng.range(-200, 100), rng.range(0, 300), rng.range(0, 300)) };
+                    emit(format!("styled.paths {} {} {}", sh, st, tb));
+                }
+            }
+            "C02" => {
+                for sh in &shapes {
+                    for st in &styles {
+                        emit(format!("styled.bbox {} {}", sh, st));
+                    }
+                }
+                for _ in 0..(2 * nrand) {
+                    emit(format!("styled.bbox {} {}", random_shape(rng, 300, 90), random_style(rng, 24)));
+                }
+            }
+            "C06" => {
+                for sh in &shapes {
+                    if !(sh.starts_with("rect") || sh.starts_with("circle") || sh.starts_with("ellipse") || sh.starts_with("rrect")) {
+                        continue;
+                    }
+                    for st in &styles {
+                        emit(format!("styled.areas {} {}", sh, st));
+                    }
+                }
+                let mut n = 0;
+                while n < nrand {
+                    let sh = random_shape(rng, 300, 70);
+                    if sh.starts_with("rect") || sh.starts_with("circle") || sh.starts_with("ellipse") || sh.starts_with("rrect") {
+                        emit(format!("styled.areas {} {}", sh, random_style(rng, 40)));
+                        n += 1;
+                    }
+                }
+            }
+            "C07" => {
+                let offs = [(0, 0), (1, 0), (0, -1), (-7, -9), (5, 3), (-3, 4), (64, -33)];
+                for (i, sh) in shapes.iter().enumerate() {
+                    for (j, st) in styles.iter().enumerate() {
+                        // two offsets per (shape, style), rotating through the list
+                        for k in 0..2 {
+                            let d = offs[(i + 3 * j + 4 * k) % offs.len()];
+                            emit(format!("styled.translate {} {} {} {}", sh, st, d.0, d.1));
+                        }
+                    }
+                }
+                for _ in 0..nrand {
+                    emit(format!("styled.translate {} {} {} {}", random_shape(rng, 200, 60), random_style(rng, 16), rng.range(-300, 300), rng.range(-300, 300)));
+                }
+            }
+            _ => {}
+        }
+    }
+
+    fn execute(&self, op: &str, ctx: &mut Ctx) -> String {
+        let mut t = Toks::new(op);
+        let stream = t.str();
+        let shape = Shape::parse(&mut t);
+        let style = parse_style(&mut t);
+        let kind = shape.kind();
+        ctx.count(&format!("{}:{}", stream, kind));
+        let transparent = style.fill_color.is_none() && (style.stroke_color.is_none() || style.stroke_width == 0);
+        match stream {
+            "styled.paths" => {
+                let tb = t.rect();
+                if tb.is_zero_sized() {
+                    ctx.count("paths:empty-target");
+                } else if tb.size.width < 100 {
+                    ctx.count("paths:clipping-target");
+                }
+                let (m1, l1, m2, _l2, mp) = with_shape!(&shape, p => {
+                    let s = Styled::new(p.clone(), style);
+                    let mut r1 = R1::<Rgb565>::new(tb);
+                    s.draw(&mut r1).unwrap();
+                    let mut r2 = R2::<Rgb565>::new(tb);
+                    s.draw(&mut r2).unwrap();
+                    let mut rp = R1::<Rgb565>::new(tb);
+                    rp.draw_iter(s.pixels()).unwrap();
+                    { let l1 = r1.rec.fmt_log(); let l2 = r2.rec.fmt_log(); (r1.rec.map, l1, r2.rec.map, l2, rp.rec.map) }
+                });
+                if !m1.is_empty() {
+                    ctx.nontrivial(op);
+                }
+                ctx.expect(m1 == m2, &format!("C01:native-vs-default:{}", kind), || format!("R1 {} px, R2 {} px", m1.len(), m2.len()));
+                ctx.expect(m1 == mp, &format!("C01:pixels-vs-draw:{}", kind), || {
+                    let only_draw = m1.iter().filter(|(k, v)| mp.get(k) != Some(v)).count();
+                    let only_px = mp.iter().filter(|(k, v)| m1.get(k) != Some(v)).count();
+                    format!("draw() {} px, pixels() {} px, {} only/different in draw, {} only/different in pixels", m1.len(), mp.len(), only_draw, only_px)
+                });
+                format!("r1={} r2eq={} pxeq={} log={}", small_map(&m1), (m1 == m2) as u8, (m1 == mp) as u8, if l1.len() <= 4000 { l1 } else { format!("big:{}", l1.len()) })
+            }
+            "styled.bbox" => {
+                let (bb, m) = with_shape!(&shape, p => {
+                    let s = Styled::new(p.clone(), style);
+                    let mut r1 = R1::<Rgb565>::unbounded();
+                    s.draw(&mut r1).unwrap();
+                    (s.bounding_box(), r1.rec.map)
+                });
+                let out: Vec<_> = m.keys().filter(|(y, x)| !bb.contains(Point::new(*x, *y))).collect();
+                if !m.is_empty() || transparent {
+                    ctx.nontrivial(op);
+                }
+                ctx.expect(out.is_empty(), &format!("C02:outside-bbox:{}", kind), || {
+                    format!("{} of {} px outside bounding_box {} e.g. ({},{})", out.len(), m.len(), fmt_rect(&bb), out[0].1, out[0].0)
+                });
+                if transparent {
+                    ctx.count("bbox:transparent");
+                    ctx.expect(m.is_empty(), &format!("C02:transparent-draws:{}", kind), || format!("{} px drawn with a transparent style", m.len()));
+                }
+                format!("bb={} n={} out={}", fmt_rect(&bb), m.len(), out.len())
+            }
+            "styled.areas" => {
+                macro_rules! areas {
+                    ($p:expr) => {{
+                        let s = Styled::new($p.clone(), style);
+                        let mut r1 = R1::<Rgb565>::unbounded();
+                        s.draw(&mut r1).unwrap();
+                        let fa = s.fill_area();
+                        let sa = s.stroke_area();
+                        let bb = s.bounding_box().envelope(&$p.bounding_box()).offset(3);
+                        let mut bad = Vec::new();
+                        let mut probe = |pt: Point, got: Option<u32>| {
+                            let want = if fa.contains(pt) {
+                                style.fill_color.map(|c| c.num())
+                            } else if sa.contains(pt) && style.stroke_width > 0 {
+                                style.stroke_color.map(|c| c.num())
+                            } else {
+                                None
+                            };
+                            if got != want {
+                                bad.push((pt, got, want));
+                            }
+                        };
+                        if (bb.size.width as u64) * (bb.size.height as u64) <= 250_000 {
+                            for pt in bb.points() {
+                                probe(pt, r1.rec.map.get(&(pt.y, pt.x)).copied());
+                            }
+                        }
+                        for ((y, x), c) in r1.rec.map.iter() {
+                            let pt = Point::new(*x, *y);
+                            if !bb.contains(pt) || (bb.size.width as u64) * (bb.size.height as u64) > 250_000 {
+                                probe(pt, Some(*c));
+                            }
+                        }
+                        // an inside stroke never paints outside the shape, an outside stroke never inside it
+                        let mut side_bad = 0usize;
+                        if style.stroke_width > 0 && style.stroke_color.is_some() {
+                            let sc = style.stroke_color.unwrap().num();
+                            for ((y, x), c) in r1.rec.map.iter() {
+                                let pt = Point::new(*x, *y);
+                                let inside = $p.contains(pt);
+                                if *c == sc && Some(sc) != style.fill_color.map(|c| c.num()) {
+                                    if style.stroke_alignment == embedded_graphics::primitives::StrokeAlignment::Inside && !inside {
+                                        side_bad += 1;
+                                    }
+                                    if style.stroke_alignment == embedded_graphics::primitives::StrokeAlignment::Outside && inside {
+                                        side_bad += 1;
+                                    }
+                                }
+                            }
+                        }
+                        (r1.rec.map, bad, side_bad, fa.bounding_box(), sa.bounding_box())
+                    }};
+                }
+                let (m, bad, side_bad, fab, sab) = match &shape {
+                    Shape::Rect(p) => areas!(p),
+                    Shape::Circle(p) => areas!(p),
+                    Shape::Ellipse(p) => areas!(p),
+                    Shape::RRect(p) => areas!(p),
+                    _ => panic!("styled.areas needs a closed shape"),
+                };
+                if !m.is_empty() {
+                    ctx.nontrivial(op);
+                }
+                if fab.is_zero_sized() && style.stroke_width > 0 {
+                    ctx.count(if fab.size.width == 0 && fab.size.height == 0 { "areas:fill-collapsed-both" } else if fab.size.width == 0 { "areas:fill-collapsed-w" } else { "areas:fill-collapsed-h" });
+                }
+                ctx.expect(bad.is_empty(), &format!("C06:not-fill-stroke-area:{}", kind), || {
+                    let (pt, got, want) = bad[0];
+                    format!("{} point(s) differ, e.g. ({},{}) painted {:?} expected {:?}; fill_area box {} stroke_area box {}", bad.len(), pt.x, pt.y, got, want, fmt_rect(&fab), fmt_rect(&sab))
+                });
+                ctx.expect(side_bad == 0, &format!("C06:stroke-wrong-side:{}", kind), || format!("{} stroke pixel(s) on the wrong side of the outline", side_bad));
+                format!("m={} fa={} sa={}", small_map(&m), fmt_rect(&fab), fmt_rect(&sab))
+            }
+            "styled.translate" => {
+                let d = t.point();
+                let (m0, md, mm, bb0, bbd, pts_ok, npts) = with_shape!(&shape, p => {
+                    let s = Styled::new(p.clone(), style);
+                    let sd = s.translate(d);
+                    let mut sm = s.clone();
+                    sm.translate_mut(d);
+                    let mut a = R1::<Rgb565>::unbounded();
+                    s.draw(&mut a).unwrap();
+                    let mut b = R1::<Rgb565>::unbounded();
+                    sd.draw(&mut b).unwrap();
+                    let mut c = R1::<Rgb565>::unbounded();
+                    sm.draw(&mut c).unwrap();
+                    // points() of the primitive
+                    let p0: Vec<Point> = p.points().collect();
+                    let pd: Vec<Point> = p.translate(d).points().collect();
+                    let ok = p0.len() == pd.len() && p0.iter().zip(pd.iter()).all(|(a, b)| *a + d == *b);
+                    (a.rec.map, b.rec.map, c.rec.map, s.bounding_box(), sd.bounding_box(), ok, p0.len())
+                });
+                if !m0.is_empty() && d != Point::zero() {
+                    ctx.nontrivial(op);
+                }
+                let want = shift_map(&m0, d);
+                ctx.expect(md == want, &format!("C07:draw-not-shifted:{}", kind), || {
+                    let diff = md.iter().filter(|(k, v)| want.get(k) != Some(v)).count() + want.iter().filter(|(k, v)| md.get(k) != Some(v)).count();
+                    format!("{} px vs {} px, {} differing entries", md.len(), want.len(), diff)
+                });
+                ctx.expect(mm == md, &format!("C07:translate-mut-differs:{}", kind), || "translate_mut and translate give different pictures".into());
+                if !bb0.is_zero_sized() {
+                    ctx.expect(bbd == Rectangle::new(bb0.top_left + d, bb0.size), &format!("C07:bbox-not-shifted:{}", kind), || format!("{} -> {}", fmt_rect(&bb0), fmt_rect(&bbd)));
+                } else {
+                    ctx.expect(bbd.is_zero_sized(), &format!("C07:bbox-not-shifted:{}", kind), || format!("{} -> {}", fmt_rect(&bb0), fmt_rect(&bbd)));
+                }
+                ctx.expect(pts_ok, &format!("C07:points-not-shifted:{}", kind), || format!("{} points", npts));
+                // contains() for the primitives that have it, probed on the box + margin
+                macro_rules! cont {
+                    ($p:expr) => {{
+                        let q = $p.translate(d);
+                        let bb = $p.bounding_box().offset(2);
+                        let mut bad = 0;
+                        if (bb.size.width as u64) * (bb.size.height as u64) <= 40_000 {
+                            for pt in bb.points() {
+                                if $p.contains(pt) != q.contains(pt + d) {
+                                    bad += 1;
+                                }
+                            }
+                        }
+                        bad
+                    }};
+                }
+                let cbad = match &shape {
+                    Shape::Rect(p) => cont!(p),
+                    Shape::Circle(p) => cont!(p),
+                    Shape::Ellipse(p) => cont!(p),
+                    Shape::RRect(p) => cont!(p),
+                    Shape::Tri(p) => cont!(p),
+                    Shape::Sector(p) => cont!(p),
+                    _ => 0,
+                };
+                ctx.expect(cbad == 0, &format!("C07:contains-not-shifted:{}", kind), || format!("{} probe(s) differ", cbad));
+                format!("n={} shifted={} bb={} bbd={}", m0.len(), (md == want) as u8, fmt_rect(&bb0), fmt_rect(&bbd))
+            }
+            other => panic!("unknown op {}", other),
+        }
     }
 }
